@@ -5,7 +5,9 @@ import (
 	"fmt"
 	"math/rand"
 	"strconv"
+	"strings"
 	"sync"
+	"sync/atomic"
 	"time"
 
 	"github.com/metal-toolbox/auditevent"
@@ -32,6 +34,7 @@ type L2 struct {
 	loginOK      chan struct{}
 	loginIn      chan struct{}
 	expectReturn bool
+	quiesced     bool
 	RetErr       error
 	Retd         bool
 	tsTag        map[int64]int
@@ -115,7 +118,7 @@ func (l *L2) WaitReturn(d time.Duration) bool {
 	}
 	select {
 	case err := <-l.done:
-		l.RetErr, l.Retd = err, true
+		l.returned(err)
 		l.cancel()
 		return true
 	case <-time.After(d):
@@ -166,10 +169,45 @@ func (l *L2) sendLine(s string) bool {
 	case l.audits <- s:
 		return true
 	case err := <-l.done:
-		l.RetErr, l.Retd = err, true
+		l.returned(err)
 		return false
 	case <-time.After(5 * time.Second):
 		return false
+	}
+}
+
+// quiesce: Read has returned, but the parser goroutine may still be inside the PushMessage that produced the error
+// (handing over the remaining groups of the same clean-up).  Before the output is looked at - and before the shared
+// context is cancelled, which would let the parser leave through ctx.Done instead - give it the empty line: it takes
+// it only when it is back in its loop.  Bounded: a parser that is stuck shows in the observation, not here.
+var quiesceTimeouts atomic.Int64
+
+func (l *L2) returned(err error) {
+	l.RetErr, l.Retd = err, true
+	l.quiesce()
+}
+
+func (l *L2) quiesce() {
+	if l.quiesced {
+		return
+	}
+	l.quiesced = true
+	if l.RetErr != nil && strings.Contains(l.RetErr.Error(), "audit log parser exited") {
+		return // the parser goroutine itself returned the error: nothing is in flight
+	}
+	wait := 300 * time.Millisecond
+	if quiesceTimeouts.Load() > 8 {
+		wait = 10 * time.Millisecond
+	}
+	select {
+	case l.audits <- "":
+	case <-time.After(wait):
+		quiesceTimeouts.Add(1)
+		return
+	}
+	dl := time.Now().Add(300 * time.Millisecond)
+	for cap(l.audits) > 0 && len(l.audits) > 0 && time.Now().Before(dl) {
+		time.Sleep(50 * time.Microsecond)
 	}
 }
 
@@ -185,7 +223,7 @@ func (l *L2) settle() {
 	}
 	select {
 	case err := <-l.done:
-		l.RetErr, l.Retd = err, true
+		l.returned(err)
 		l.cancel() // the errgroup cancels the shared context when a worker returns
 	case <-time.After(d):
 		if d > 2*time.Millisecond {
@@ -275,7 +313,7 @@ func (l *L2) Apply(c Call) (ok bool, err error) {
 		select {
 		case l.logins <- rul:
 		case err := <-l.done:
-			l.RetErr, l.Retd = err, true
+			l.returned(err)
 			return false, nil
 		case <-time.After(5 * time.Second):
 			return false, fmt.Errorf("Read did not take the login within 5 s")
@@ -283,7 +321,7 @@ func (l *L2) Apply(c Call) (ok bool, err error) {
 		select {
 		case <-l.loginOK:
 		case err := <-l.done:
-			l.RetErr, l.Retd = err, true
+			l.returned(err)
 			return false, nil
 		case <-time.After(5 * time.Second):
 			return false, fmt.Errorf("RemoteLogin did not finish within 5 s")
@@ -328,7 +366,7 @@ func (l *L2) Barrier() bool {
 			}
 			select {
 			case err := <-l.done:
-				l.RetErr, l.Retd = err, true
+				l.returned(err)
 				return false
 			default:
 			}
